@@ -105,3 +105,10 @@ def nontrivial(case, r):
 def case_class(case, r):
     f = r.get("fault")
     return "no-fault" if f is None else ("fault@0" if f == 0 else "fault@last" if f == r["ninv_first"] - 1 else "fault@mid")
+
+
+UNITS_NAME = "callback_invocations_in_first_call"
+
+
+def units(case, r):
+    return r.get('ninv_first', 0)
